@@ -186,7 +186,7 @@ def rule_le(ctx):
     rets = [(canon(r.rvalue_expr(d[3]) if d[0] == 'assign' else r.call_expr(d[2])), [x for x in guards_at(r, d[1]) if 'next(' not in x]) for d in r.ret_defs()]
     # the first `size` bytes with their positions: enumerate().take(size) over the slice, or enumerate() over its
     # first `size` bytes
-    items = ['each(take(enumerate(a1), a2))', 'each(enumerate(a1[RangeTo::RangeTo{end: a2}]))']
+    items = ['each(take(enumerate(a1), a2))', 'each(enumerate(a1[Range::Range{start: 0, end: a2}]))']
     les = ['Result::Ok{0: sum(((%s.1 as usize) << (%s.0 * 8)))}' % (it, it) for it in items]
     ok = [x for x in rets if x[0].startswith('Result::Ok')]
     good = len(ok) == 1 and (ok[0][0] in les or 'from_le_bytes' in ok[0][0])
